@@ -50,6 +50,9 @@ def make_resolver(repo: Repo, obj_depth=3, skip_classes=()):
             if head in ("Tuple", "tuple"):
                 inner = [resolve(module, a, depth) for a in args]
                 return f"Tuple[{', '.join(inner)}]" if all(inner) else None
+            if head in ("Dict", "dict"):
+                inner = [resolve(module, a, depth) for a in args]
+                return f"Dict[{', '.join(inner)}]" if len(inner) == 2 and all(inner) else None
             if head == "Literal":
                 if all(isinstance(a, ast.Constant) and isinstance(a.value, str) for a in args):
                     return "str"
